@@ -4,7 +4,7 @@ from __future__ import annotations
 import ast
 import copy
 
-from ..astutil import attr_chain, call_method, short, src, enum_member, kwarg, flatten_boolop
+from ..astutil import clone, attr_chain, call_method, short, src, enum_member, kwarg, flatten_boolop
 from ..model import Program, walk_local, AnalysisError
 from ..engines.typecase import TypeCase, events_matching
 
@@ -151,7 +151,7 @@ class _ParseEval:
         class _S(ast.NodeTransformer):
             def visit_Name(self2, n):
                 if isinstance(n.ctx, ast.Load) and n.id in me.env:
-                    return copy.deepcopy(me.env[n.id])
+                    return clone(me.env[n.id])
                 return n
 
             def visit_Call(self2, c):
@@ -167,7 +167,7 @@ class _ParseEval:
                 self2.generic_visit(n)
                 v = me.truth(n.test)
                 return n if v is None else (n.body if v else n.orelse)
-        return _S().visit(copy.deepcopy(e))
+        return _S().visit(clone(e))
 
     def truth(self, t):
         if isinstance(t, ast.Compare) and len(t.ops) == 1 and isinstance(t.ops[0], (ast.Is, ast.IsNot, ast.Eq, ast.NotEq)) \
